@@ -542,7 +542,7 @@ FAULT_CLAUSES = {
     "C15": {"ErrorSurfaces"},
     "C17": {"QuerierBeforeExec", "QuerierAfterReturn", "QuerierClosedOnce", "DataUnmodified"},
 }
-FAULT_MODES = {"C13": ["panic", "panic+lag"], "C14": ["cancel", "block", "blockq", "cancelcall", "gate"], "C15": ["err", "errdown", "err+lag"], "C17": ["err", "errdown", "panic", "cancel", "block"]}
+FAULT_MODES = {"C13": ["panic", "panic+lag"], "C14": ["cancel", "block", "blockq", "cancelcall", "gate"], "C15": ["err", "errwrap", "errdown", "err+lag"], "C17": ["err", "errdown", "panic", "cancel", "block"]}
 
 
 def mc_exec(run):
